@@ -6,7 +6,7 @@ CONSTANTS
   KeyTypes = {0, 1, 2, 3, 4}
   Hashes = {18, 19}
   Windows = {"none", "from", "fromUntil", "untilExact", "fromExact", "fromOnlyEdge"}
-  PatchClasses = {"one", "two", "opaque"}
+  PatchClasses = {"one", "two", "opaque", "opaqueSparse"}
   Origins = {"none", "string", "object"}
   Nonces = {"absent", "N"}
 INVARIANT TakesEffect
